@@ -67,6 +67,12 @@ class TModel(ChanModel):
         if k == "badw":
             # the rejected write leaves nothing behind: same as the inner operation alone
             return self._op(w, op[3], deadline)
+        if k == "dlc":
+            # (ev/deadline s) set inside a nested fiber that has already ended watches that fiber (tocheck defaults to
+            # the current fiber): it can never fire, so this is the inner operation alone. The inert timer is kept in
+            # the model state so that histories through it stay distinct and time is advanced past it.
+            self.timers.append([self.now + int(op[1] * 1000), w, -1, "deadline"])
+            return self._op(w, op[2], deadline)
         comps = []
         before = self.nextwid
         if k == "sleep":
